@@ -44,7 +44,7 @@ ACTIONS = {
 
 
 class HttpRun(object):
-    def __init__(self, actions, pool_size=None, idle_timeout=None, refuse=False, relay_side_conns=False):
+    def __init__(self, actions, pool_size=None, idle_timeout=None, refuse=False, relay_side_conns=False, ehlo_fail=()):
         """actions: list consumed one per request (last repeated).  relay_side_conns: connection open/close events are
         logged where the relay creates / closes its connection objects (the pool's own count) instead of where the peer
         accepts and loses them (which lags behind on real sockets)."""
@@ -87,8 +87,19 @@ class HttpRun(object):
         port = self.server.server_port
         if refuse:
             self.server.stop()
-        self.relay = HttpRelay('http://127.0.0.1:%d/deliver' % port, pool_size=pool_size, ehlo_as='relay.example', timeout=HTTP_T,
-                               idle_timeout=idle_timeout)
+        # ehlo_fail: the application's ehlo_as function raises at these calls (1-based) - setting a connection up fails before
+        # anything is sent; the attempt that needed it ends as a transient failure like any other connection failure
+        self.ehlo_calls = 0
+        run_ = self
+
+        def ehlo_as():
+            run_.ehlo_calls += 1
+            if run_.ehlo_calls in ehlo_fail:
+                run_.log(t='peer', stage='http', i=0, act='disconnect', code=0, conn=0, trans=0, marker=0, m=0, action='ehlo_raises')
+                raise RuntimeError('no name for this host')
+            return 'relay.example'
+        self.relay = HttpRelay('http://127.0.0.1:%d/deliver' % port, pool_size=pool_size, ehlo_as=ehlo_as if ehlo_fail else 'relay.example',
+                               timeout=HTTP_T, idle_timeout=idle_timeout)
         self.refuse = refuse
 
     def log(self, **kw):
